@@ -325,4 +325,50 @@ theorem allocSum_filter_split (l : Inc) (p : Key × (Writer × File) → Bool) :
     simp only [allocSum, List.filter_cons, List.map_cons, List.sum_cons] at ih ⊢
     cases hp : p x <;> simp [List.sum_cons] <;> omega
 
+theorem absShare_conns (s : Server) (cs : List (Nat × Nat)) (k : Key) :
+    absShare { s with conns := cs } k = absShare s k := rfl
+
+theorem allocateConn_fields (s : Server) (c si : Nat) (shs : List Nat) (size : Nat) (rec : Bytes)
+    (free : Nat) (order : List Nat) :
+    (allocateConn s c si shs size rec free order).1.final = (allocate s si shs size rec free order).1.final ∧
+    (allocateConn s c si shs size rec free order).1.incoming = (allocate s si shs size rec free order).1.incoming := by
+  simp only [allocateConn]
+  cases (allocate s si shs size rec free order).2 <;> exact ⟨rfl, rfl⟩
+
+theorem absShare_congr (s t : Server) (hf : t.final = s.final) (hi : t.incoming = s.incoming) (k : Key) :
+    absShare t k = absShare s k := by
+  simp only [absShare, hf, hi]
+
+/-- one front-end step preserves the invariants and refines the specification -/
+theorem fstep_refines (s : Server) (h : WF s) (hh : WFH s) (op : FOp) (ok : FOpOk op) :
+    FSpecStep s (absShare s) op (absShare (fstep s op)) := by
+  cases op with
+  | direct o => exact (step_refines s h o ok).2
+  | allocConn c si shs size rec free order =>
+    have e := (allocate_effect s h si shs size rec ok free order).2.2
+    have f := allocateConn_fields s c si shs size rec free order
+    intro k
+    simp only [fstep]
+    rw [absShare_congr _ _ f.1 f.2 k]
+    exact e k
+  | disconnect c =>
+    intro k
+    have heq := foldl_abort_eq_filter (widsOfConn s c) s h.incKeys hh.widNodup
+    simp only [fstep, disconnectOp]
+    rw [heq]
+    simp only [absShare]
+    cases hfin : getK k s.final with
+    | some f =>
+      have := h.disj k (by simp [hfin])
+      simp only [this]
+    | none =>
+      simp only
+      rw [getK_filter _ _ h.incKeys]
+      cases hinc : getK k s.incoming with
+      | none => simp
+      | some v =>
+        obtain ⟨w, f⟩ := v
+        simp only
+        cases hc : (widsOfConn s c).contains w.wid <;> simp [hc]
+
 end Tahoe.Storage.Imm
